@@ -748,6 +748,7 @@ pub fn generate(what: &str, seed: u64, tier: &str) -> Vec<String> {
         "replace" => crate::gen_red::gen_replace(seed, tier),
         "fmt" => crate::gen_red::gen_fmt(seed, tier),
         "tokens" => crate::gen_red::gen_tokens(seed, tier),
+        "text" => crate::gen_red::gen_text(seed, tier),
         "greeneq" => gen_greeneq(seed, tier),
         "faults" => gen_faults(seed, tier),
         "checkpoints" => gen_checkpoints(seed, tier),
